@@ -886,6 +886,7 @@ func (b *Bucket) write() []byte {
 // rebalance attempts to balance all nodes.
 func (b *Bucket) rebalance() {
 	for _, n := range b.nodes {
+		verifEvent(b.tx.db, "rebalance", int(n.pgid))
 		n.rebalance()
 	}
 	for _, child := range b.buckets {
